@@ -59,3 +59,8 @@ add("C14", "model_checking", "vh",
     "allocator BFS with a content oracle + exhaustive enumeration of short byte strings and integers",
     "(a) in every state of the allocator BFS every handle still valid per the model (also after restores to later checkpoints) must read back its recorded bytes/children through every read API, and atom_eq must equal byte equality on every pair of live atoms; (b) fits_in_small_atom/small_number/new_atom on every byte string up to 3 bytes, 4-byte lattices and a 5-letter alphabet up to 6 bytes in inline and heap form; all integer constructors on every integer in +-2^14|2^17 and +-2^k+-d up to 2^120 against an independent minimal encoder.",
     "Trusts the minimal-encoding oracle in tree.rs (int_bytes).")
+
+add("C19", "model_checking", "vh",
+    "explicit-state search over add/undo histories of the real incremental Serializer against a hole-filling tree model",
+    "Breadth-first search over histories of Add(fragment, fresh|re-used NodePtr) and Undo(to any saved state) events on the real Serializer, each history replayed on a fresh object: after every undo the bytes/size must equal those recorded before the undone add; add must report completion exactly when the assembled tree has no unfilled sentinel; completed bytes must decode (new, legacy and reference decoder) to the tree assembled by filling sentinel positions in serialization order; byte traces must not depend on the hashing salts (hook H3). Space A (upstream usage: sentinel in tail position) is explored to 4|5 adds / 2 undos / 6|7 events; spaces N, B, C (sentinel in any position, repeated sentinels, re-used non-tail fragments) to 3-4 adds.",
+    "Three known findings (exact witness history lists) concern fragments with content after their sentinel; space A is clean. Fragments outside the 15-fragment alphabet and longer histories are not covered.")
